@@ -118,17 +118,23 @@ class Ctx:
               file=sys.stderr, flush=True)
 
     # ---------------------------------------------------------------- coq
-    def build_theories(self):
-        """(Re)build the hand-written theories; normally a no-op."""
+    def build_theories(self, targets=None):
+        """(Re)build hand-written theories; normally a no-op after setup.
+
+        targets: list like ['theories/L4/Kleene.vo'] (their dependencies are
+        built too); None builds everything under coq/theories."""
         lock = os.path.join(COQ, '.lock')
         with open(lock, 'w') as lf:
             fcntl.flock(lf, fcntl.LOCK_EX)
             r = subprocess.run(
-                ['bash', os.path.join(VERIF, 'tools', 'coqbuild.sh')],
+                ['bash', os.path.join(VERIF, 'tools', 'coqbuild.sh')]
+                + list(targets or []),
                 cwd=COQ, capture_output=True, text=True, timeout=3000)
         if r.returncode != 0:
             raise Broken('proof', 'hand-written theories do not build: '
                          + (r.stdout + r.stderr)[-2000:])
+        self.checker_cmds.append(
+            'cd /verif/coq && make ' + ' '.join(targets or []))
 
     def coq_lock(self):
         """Lock serialising writes of shared gen/ GenProofs/ Properties/ .vo."""
@@ -380,7 +386,7 @@ def run_check(plugin, tier, seed):
     level = getattr(plugin, 'LEVEL', 'proof')
     broken, mism = [], []
     try:
-        ctx.build_theories()
+        ctx.build_theories(getattr(plugin, 'THEORIES', None))
         plugin.prove(ctx)
     except Broken as b:
         ctx.log('BROKEN', b)
